@@ -732,6 +732,267 @@ def inline_fresh_helpers(tree: ast.Module, ref_mod: dict, protect_renames: bool 
     ast.fix_missing_locations(tree)
 
 
+_WIDENING_TYPES = {"memoryview", "list", "tuple", "os.PathLike", "PathLike", "pathlib.Path", "Path", "pathlib.PurePath", "PurePath", "array.array", "array"}
+
+
+def drop_fresh_widening_guards(tree: ast.Module, ref_mod: dict) -> bool:
+    """`if isinstance(p, T): p = conv(p)` at the head of a function (or `if isinstance(p, T): return conv(p)` directly before `return
+    p` in a fresh helper), for a parameter p, with T among the exotic buffer/path types {memoryview, list, tuple, os.PathLike,
+    pathlib.Path, array.array} and conv a content-preserving conversion {bytes, bytearray, p.tobytes(), os.fspath, str, list,
+    tuple}, where the reference function has no such test: a commit that lets the function accept one more kind of argument.
+    Every argument that is not of type T takes exactly the old path; what a caller gets who passes the new kind is outside the
+    properties (they are stated for the interface of the pinned tree).  The guard is removed from the canonical form."""
+    ref_funcs = ref_mod.get("funcs", {})
+    changed = False
+
+    def conv_of(e, p):
+        if isinstance(e, ast.Call) and not e.keywords:
+            nm = dotted_name(e.func)
+            if nm in ("bytes", "bytearray", "os.fspath", "fspath", "str", "list", "tuple") and len(e.args) == 1 and isinstance(e.args[0], ast.Name) and e.args[0].id == p:
+                return True
+            if isinstance(e.func, ast.Attribute) and e.func.attr == "tobytes" and isinstance(e.func.value, ast.Name) and e.func.value.id == p and not e.args:
+                return True
+        return False
+
+    def guard(st, params):
+        if not (isinstance(st, ast.If) and not st.orelse and len(st.body) == 1):
+            return None
+        t = st.test
+        if not (isinstance(t, ast.Call) and isinstance(t.func, ast.Name) and t.func.id == "isinstance" and len(t.args) == 2 and isinstance(t.args[0], ast.Name) and t.args[0].id in params):
+            return None
+        types = t.args[1].elts if isinstance(t.args[1], ast.Tuple) else [t.args[1]]
+        if not all(dotted_name(x) in _WIDENING_TYPES for x in types):
+            return None
+        return t.args[0].id
+
+    def walk(node, prefix):
+        nonlocal changed
+        for n in getattr(node, "body", []):
+            if isinstance(n, ast.ClassDef):
+                walk(n, prefix + n.name + ".")
+            elif isinstance(n, ast.FunctionDef):
+                q = prefix + n.name
+                rf = ref_funcs.get(q)
+                ref_tests = set(rf.get("tests", [])) if rf is not None else set()
+                params = {a.arg for a in n.args.posonlyargs + n.args.args + n.args.kwonlyargs}
+                i = 0
+                while i < len(n.body):
+                    st = n.body[i]
+                    p = guard(st, params)
+                    if p is not None and _key(st.test) not in ref_tests:
+                        b = st.body[0]
+                        if isinstance(b, ast.Assign) and len(b.targets) == 1 and isinstance(b.targets[0], ast.Name) and b.targets[0].id == p and conv_of(b.value, p):
+                            # the parameter must not have been re-bound before the guard
+                            if not any(isinstance(x, ast.Name) and x.id == p and isinstance(x.ctx, ast.Store) for s_ in n.body[:i] for x in ast.walk(s_)):
+                                del n.body[i]
+                                changed = True
+                                continue
+                        if isinstance(b, ast.Return) and b.value is not None and conv_of(b.value, p) and i + 1 < len(n.body) and isinstance(n.body[i + 1], ast.Return) \
+                                and isinstance(n.body[i + 1].value, ast.Name) and n.body[i + 1].value.id == p:
+                            del n.body[i]
+                            changed = True
+                            continue
+                    if isinstance(st, ast.Expr) and isinstance(st.value, ast.Constant):
+                        i += 1
+                        continue
+                    if p is None and not (isinstance(st, ast.If) and guard(st, params) is not None):
+                        break                     # only the head of the function
+                    i += 1
+                if not n.body:
+                    n.body.append(ast.Pass())
+                walk(n, q + ".")
+    walk(tree, "")
+    return changed
+
+
+_OBS_VALUE_CALLS = {"time.time", "time.monotonic", "time.perf_counter", "len", "max", "min", "int", "float", "abs", "round"}
+_OBS_VALUE_METHODS = {"qsize"}
+
+
+def drop_fresh_observational(tree: ast.Module, ref_mod: dict, observational: Set[str]) -> bool:
+    """Statements that keep a statistic for the user -- a store or in-place update of an attribute of self that (a) the reference
+    module does not mention and (b) nothing in the whole package reads except logging / __repr__ / an unused getter
+    (effects.observational_attrs_of) -- with a value made of names, attributes, literals, arithmetic, len(), clocks: they cannot
+    influence any frame, stored value, exception or result of another operation, and are removed from the canonical form."""
+    import re as _re
+    ref_attrs = set()
+    for f_ in ref_mod.get("funcs", {}).values():
+        ref_attrs |= set(_re.findall(r"\.([A-Za-z_][A-Za-z_0-9]*)", f_.get("src", "")))
+    cand = observational - ref_attrs
+    if not cand:
+        return False
+
+    def plain(v):
+        if v is None:
+            return True
+        for x in ast.walk(v):
+            if isinstance(x, ast.Call):
+                ok = (dotted_name(x.func) in _OBS_VALUE_CALLS) or (isinstance(x.func, ast.Attribute) and x.func.attr in _OBS_VALUE_METHODS and not x.args)
+                if not ok or x.keywords:
+                    return False
+            elif isinstance(x, (ast.Yield, ast.YieldFrom, ast.Await, ast.NamedExpr, ast.Lambda, ast.ListComp, ast.DictComp, ast.SetComp, ast.GeneratorExp, ast.Subscript)):
+                return False
+        return True
+    changed = False
+    for fn in [n for n in ast.walk(tree) if isinstance(n, ast.FunctionDef)]:
+        for owner, fld, blk in blocks_of(fn):
+            for st in list(blk):
+                if isinstance(st, (ast.Assign, ast.AugAssign, ast.AnnAssign)):
+                    tg = st.targets if isinstance(st, ast.Assign) else [st.target]
+                    if all(isinstance(t, ast.Attribute) and isinstance(t.value, ast.Name) and t.value.id == "self" and t.attr in cand for t in tg) and plain(st.value):
+                        blk.remove(st)
+                        changed = True
+            if not blk:
+                blk.append(ast.Pass())
+    return changed
+
+
+def dotted_name(e: ast.AST) -> str:
+    parts = []
+    while isinstance(e, ast.Attribute):
+        parts.append(e.attr)
+        e = e.value
+    if isinstance(e, ast.Name):
+        parts.append(e.id)
+        return ".".join(reversed(parts))
+    return ""
+
+
+def _propagate_leading_value(body: List[ast.stmt], name: str, value: ast.expr) -> List[ast.stmt]:
+    """`name` holds `value` (a literal or a constant's name) on entry of this block: put the value where the name is read, up to
+    the first statement that stores the name; an `if` whose test becomes constant that way is replaced by the branch taken (and
+    the walk goes on inside it).  If the name may still be read after that, the binding `name = value` is kept in front."""
+    from .loader import _Canonical
+
+    class _S(ast.NodeTransformer):
+        def visit_Name(self, x):
+            if x.id == name and isinstance(x.ctx, ast.Load):
+                return ast.copy_location(copy.deepcopy(value), x)
+            return x
+
+    def stores(node):
+        return any(isinstance(x, ast.Name) and x.id == name and isinstance(x.ctx, (ast.Store, ast.Del)) for x in ast.walk(node))
+
+    out: List[ast.stmt] = []
+    rest = list(body)
+    live = True               # the entry value is still what the name holds
+    need_binding = False
+    while rest:
+        st = rest.pop(0)
+        if not live:
+            out.append(st)
+            continue
+        if not stores(st):
+            out.append(_S().visit(st))
+            continue
+        if isinstance(st, ast.If):
+            st.test = _Canonical().visit(_S().visit(st.test))
+            ast.fix_missing_locations(st)
+            if isinstance(st.test, ast.Constant):
+                rest = list(st.body if st.test.value else st.orelse) + rest
+                continue
+            need_binding = True
+            live = False
+            out.append(st)
+            continue
+        if isinstance(st, ast.Assign) and len(st.targets) == 1 and isinstance(st.targets[0], ast.Name) and st.targets[0].id == name:
+            st.value = _S().visit(st.value)
+            out.append(st)
+            live = False
+            continue
+        need_binding = True
+        live = False
+        out.append(st)
+    if need_binding:
+        out.insert(0, ast.Assign(targets=[ast.Name(id=name, ctx=ast.Store())], value=copy.deepcopy(value)))
+    return out or [ast.Pass()]
+
+
+def specialise_unpassed_defaults(tree: ast.Module, ref_mod: dict, repo_calls: dict) -> bool:
+    """A parameter the reference function does not have, with a default (a literal or a module-level constant), which no call in the
+    whole package passes and whose function is never handed on uncalled: inside the library the parameter IS its default.  The
+    parameter is removed and its default put where it is read (or assigned first, when the function re-binds it), so that the
+    constant folder and the other passes can finish the job (`timeout if timeout is not None else self.RESPONSE_TIMEOUT`).  What a
+    user of the new keyword gets is outside every property: they are stated for the interface the pinned tree has."""
+    ref_funcs = ref_mod.get("funcs", {})
+    sites, bare = repo_calls.get("sites", {}), repo_calls.get("bare", set())
+    mod_consts = {t.id for n in tree.body if isinstance(n, ast.Assign) and len(n.targets) == 1 for t in n.targets if isinstance(t, ast.Name)}
+    multi = {nm for nm in mod_consts if sum(1 for x in ast.walk(tree) if isinstance(x, ast.Name) and x.id == nm and isinstance(x.ctx, ast.Store)) > 1}
+    changed = False
+
+    def walk(node, prefix, in_class):
+        nonlocal changed
+        for n in getattr(node, "body", []):
+            if isinstance(n, ast.ClassDef):
+                walk(n, prefix + n.name + ".", True)
+            elif isinstance(n, ast.FunctionDef):
+                q = prefix + n.name
+                if any(isinstance(d, ast.Attribute) and d.attr == "setter" for d in n.decorator_list):
+                    q += ".setter"
+                rf = ref_funcs.get(q)
+                if rf is not None and not n.args.vararg and not n.args.kwarg and n.name not in bare:
+                    refp = set(rf.get("params", []))
+                    a = n.args
+                    pos = a.posonlyargs + a.args
+                    is_method = in_class and not any(isinstance(d, ast.Name) and d.id == "staticmethod" for d in n.decorator_list)
+                    ndef = len(a.defaults)
+                    cand = []
+                    for i, p in enumerate(pos):
+                        di = i - (len(pos) - ndef)
+                        if di >= 0 and p.arg not in refp:
+                            cand.append(("pos", i, p, a.defaults[di]))
+                    for i, p in enumerate(a.kwonlyargs):
+                        if a.kw_defaults[i] is not None and p.arg not in refp:
+                            cand.append(("kw", i, p, a.kw_defaults[i]))
+                    # only trailing positional parameters can go (the ones before keep their positions)
+                    for kind, i, p, d in sorted(cand, key=lambda c: (c[0] != "kw", -c[1])):
+                        if not (isinstance(d, ast.Constant) or (isinstance(d, ast.Name) and d.id in mod_consts and d.id not in multi)
+                                or (isinstance(d, ast.UnaryOp) and isinstance(d.operand, ast.Constant))):
+                            continue
+                        if kind == "pos" and i != len(a.posonlyargs + a.args) - 1:
+                            continue
+                        idx = i - (1 if is_method else 0)
+                        passed = False
+                        for npos, kws, star in sites.get(n.name, []):
+                            if star or p.arg in kws or (kind == "pos" and npos > idx):
+                                passed = True
+                                break
+                        if n.name == "__init__":
+                            cname = prefix[:-1].split(".")[-1]
+                            for npos, kws, star in sites.get(cname, []):
+                                if star or p.arg in kws or (kind == "pos" and npos > idx):
+                                    passed = True
+                                    break
+                            if cname in bare:
+                                passed = True
+                        if passed:
+                            continue
+                        # nested functions that re-define the name would shadow it: leave those cases alone
+                        if any(isinstance(x, (ast.FunctionDef, ast.Lambda)) and x is not n and p.arg in {y.arg for y in ast.walk(x.args) if isinstance(y, ast.arg)} for x in ast.walk(n)):
+                            continue
+                        stored = any(isinstance(x, ast.Name) and x.id == p.arg and isinstance(x.ctx, (ast.Store, ast.Del)) for x in ast.walk(n))
+                        if kind == "pos":
+                            (a.args if p in a.args else a.posonlyargs).remove(p)
+                            a.defaults.pop()
+                        else:
+                            a.kwonlyargs.pop(i)
+                            a.kw_defaults.pop(i)
+                        if stored:
+                            n.body = _propagate_leading_value(n.body, p.arg, d)
+                        else:
+                            class _S(ast.NodeTransformer):
+                                def visit_Name(self, x):
+                                    if x.id == p.arg and isinstance(x.ctx, ast.Load):
+                                        return ast.copy_location(copy.deepcopy(d), x)
+                                    return x
+                            n.body = [_S().visit(st) for st in n.body]
+                        ast.fix_missing_locations(n)
+                        changed = True
+                walk(n, q + ".", False)
+    walk(tree, "", False)
+    return changed
+
+
 def unroll_fresh_generators(tree: ast.Module, ref_mod: dict) -> None:
     """A generator method the reference does not have, whose body is a fixed sequence of `yield E` and `for x in it: yield E`,
     used only as `for T in self.g(): BODY`: the loop is written out -- per yield `T = E` + BODY, per yielding loop the loop
